@@ -20,7 +20,9 @@ PID = "C09"
 DI = "pynenc/invocation/dist_invocation.py"
 PARTS = [("contracts.c09_runner", ["pynenc.runner.thread_runner:ThreadRunner._waiting_for_results",
                             "pynenc.runner.thread_runner:ThreadRunner._reclaim_available_slots",
-                            "pynenc.runner.thread_runner:ThreadRunner._on_start"])]
+                            "pynenc.runner.thread_runner:ThreadRunner._on_start"]),
+         # the waiters of an invocation are released exactly when a FINAL status is accepted - a refused request leaves the wait graph alone
+         ("contracts.c01", ["pynenc.orchestrator.base_orchestrator:BaseOrchestrator.set_invocation_status"])]
 
 
 def contracts(T, reg, ctx):
